@@ -28,7 +28,7 @@ def run_case(case):
         ok = True
         msg = ""
         for prop in case["props"]:
-            r = subprocess.run([os.path.join(VERIF, "check"), prop, "--root", tmp, "--no-write"], capture_output=True, text=True)
+            r = subprocess.run([os.path.join(VERIF, "check"), prop, "--root", tmp, "--no-write", "--no-controls"], capture_output=True, text=True)
             lines = [l for l in r.stdout.splitlines() if not l.startswith("  rule")]
             results.append((prop, r.returncode))
             if case["expect"] == "violation":
